@@ -297,6 +297,8 @@ func runC02(e *Engine, r *Report) {
 	ruleTermInMemFirst(e, r)
 	ruleRaftPredicates(e, r, "upToDate", "matchTerm")
 	borrow(e, r, "C03", "GD-vote-grant", "GD-campaign", "GD-campaign-pred", "GD-leader", "GD-tally", "WMW-term", "WMW-vote-reset")
+	ruleResetProgress(e, r)
+	borrow(e, r, "C08", "OWN-members-copy", "TBL-ssmeta")
 }
 
 // runDET: no wall clock / randomness / unordered map iteration feeding state
